@@ -28,7 +28,8 @@ PROBES = ['get-readable', 'get-write-only-refused', 'set-writable', 'set-read-on
           'unknown-property', 'unknown-interface', 'getall', 'local-assign-emits',
           'local-assign-silent', 'remote-set-emits', 'same-name-two-interfaces',
           'inherited-property', 'empty-interface-name', 'get-after-remote-set',
-          'two-instances-of-one-class']
+          'two-instances-of-one-class', 'exported-on-an-older-connection-first',
+          'properties-declared-on-abstract-class', 'misdeclared-sibling-rejected-first']
 COMPONENTS = {
     'real': ['txdbus.objects.DBusProperty / DBusObject (_dbus_PropertyGet/Set/GetAll, '
              'getAllProperties, emitSignal)', 'DBusObjectHandler dispatch',
@@ -45,6 +46,10 @@ def scenario(ctx):
     rig = ClientRig(ctx, unix=ds.flag(0.2))
     cl = rig.proto
     daemon = rig.daemon
+    # fail-over: the objects were first exported on an older connection of the same process,
+    # then on this one; the older connection goes away at some point of the run
+    rig0 = ClientRig(ctx, name='c0', bus_name=':1.41', node=rig.node) if ds.flag(0.25) else None
+    first_lost = [rig0 is None]
     sched = Scheduler(ctx)
 
     def hook(obj, mspec, args, caller):
@@ -76,7 +81,19 @@ def scenario(ctx):
                 sim.probe('two-instances-of-one-class')
             else:
                 txi = objgen.build_tx_ifaces(cs)
+                cs.abstract_props = ds.flag(0.2)
                 klass = objgen.build_class(cs, hook, txi)
+                if cs.abs_klass is not None:
+                    sim.probe('properties-declared-on-abstract-class')
+                    if ds.flag(0.6):
+                        # a sibling class that forgot its dbusInterfaces is tried first and
+                        # rejected; the correctly declared class must be unaffected
+                        broken = type('Broken' + cs.name, (cs.abs_klass,), {})
+                        try:
+                            cl.exportObject(broken('/broken%d' % i))
+                        except Exception as e:
+                            sim.log('broken-sibling-rejected', type(e).__name__)
+                            sim.probe('misdeclared-sibling-rejected-first')
             o = klass(p)
             reg = {}
             for d in allifs:
@@ -90,6 +107,9 @@ def scenario(ctx):
                                         % (d.name, pn, ps, e))
                     reg[(d.name, pn)] = [ps, ref, acc, em]
             objs[p] = {'obj': o, 'cs': cs, 'reg': reg}
+            if rig0 is not None:
+                rig0.proto.exportObject(o)
+                sim.probe('exported-on-an-older-connection-first')
             cl.exportObject(o)
     rig.call(build)
     rig.calm()
@@ -203,7 +223,21 @@ def scenario(ctx):
                 budget[0] -= 1
                 (op_assign if ds.flag(0.35) else op_remote)()
             ops.append(('op', op))
-        return {'op': ops}
+        faults = []
+        if not first_lost[0]:
+            def lose_first():
+                first_lost[0] = True
+                sim.fault('close')
+                how = ds.choose(3)
+                sim.log('fault', 'older-connection-lost', how)
+                if how == 0:
+                    rig0.call(rig0.proto.disconnect)
+                elif how == 1:
+                    rig0.daemon.transport.loseConnection()
+                else:
+                    rig0.conn.reset()
+            faults.append(('lose-first', lose_first))
+        return {'op': ops, 'fault': faults}
 
     def process(q):
         """the query's last byte was delivered in this step: apply it to the model; the
